@@ -26,36 +26,35 @@ VARIABLES dir,      \* set of entry ids present in _versions
           pc,       \* "build" | "scan" | "fallback" | "done"
           store,    \* "none" | "lex" | "unord" | "local" | "localfb"
           lst,      \* the listing (sequence of entry ids) being consumed
-          lst0,     \* the first listing of this run (what list_manifest_locations sees)
           pos,      \* next position in lst
           st,       \* state of the discovery procedure
           out       \* result of resolve_latest_location
-vars == <<dir, pre, mig, pc, store, lst, lst0, pos, st, out>>
+vars == <<dir, pre, mig, pc, store, lst, pos, st, out>>
 
 OnObjectStore(d) == "mp" \notin Kinds(d)      \* multipart leftovers exist on a file system only
 Lexical == store = "lex"
 
 Init == /\ dir = {} /\ pre = {} /\ mig = "no" /\ pc = "build" /\ store = "none"
-        /\ lst = <<>> /\ lst0 = <<>> /\ pos = 1 /\ st = ListInit /\ out = OutPending
+        /\ lst = <<>> /\ pos = 1 /\ st = ListInit /\ out = OutPending
 
 Add(e) == /\ pc = "build" /\ mig = "no"
           /\ Cardinality(dir) < MaxEntries
           /\ \A x \in dir : x < e
           /\ dir' = dir \cup {e}
-          /\ UNCHANGED <<pre, mig, pc, store, lst, lst0, pos, st, out>>
+          /\ UNCHANGED <<pre, mig, pc, store, lst, pos, st, out>>
 
 DoMigrate == /\ pc = "build" /\ mig = "no" /\ dir # {}
              /\ pre' = dir
              /\ IF MigPanics(dir, Deviations)
                 THEN /\ mig' = "panic" /\ pc' = "done" /\ out' = OutPanic /\ dir' = dir
                 ELSE /\ mig' = "yes" /\ dir' = Migrate(dir) /\ UNCHANGED <<pc, out>>
-             /\ UNCHANGED <<store, lst, lst0, pos, st>>
+             /\ UNCHANGED <<store, lst, pos, st>>
 
 Open(s, l) == /\ pc = "build"
               /\ s \in Stores
               /\ (s # "local" => OnObjectStore(dir))
               /\ l \in (IF s = "lex" THEN {LexSort(dir)} ELSE Perms(dir))
-              /\ store' = s /\ lst' = l /\ lst0' = l /\ pos' = 1 /\ pc' = "scan"
+              /\ store' = s /\ lst' = l /\ pos' = 1 /\ pc' = "scan"
               /\ st' = IF s = "local" THEN LocalInit ELSE ListInit
               /\ UNCHANGED <<dir, pre, mig, out>>
 
@@ -64,23 +63,24 @@ Examine == /\ pc = "scan" /\ pos <= Len(lst) /\ st.ph # "done"
            /\ st' = IF store = "local" THEN LocalStep(st, lst[pos])
                     ELSE ListStep(st, lst[pos], Lexical, Deviations)
            /\ pos' = pos + 1
-           /\ UNCHANGED <<dir, pre, mig, pc, store, lst, lst0, out>>
+           /\ UNCHANGED <<dir, pre, mig, pc, store, lst, out>>
 ExamineListed == Examine /\ store # "local"       \* current_manifest_path over a listing
 ExamineLocal  == Examine /\ store = "local"       \* current_manifest_local over readdir
 
 Finish == /\ pc = "scan" /\ (pos > Len(lst) \/ st.ph = "done")
           /\ IF store = "local"
              THEN IF LocalFallsBack(st)
-                  THEN /\ pc' = "fallback" /\ UNCHANGED out
-                  ELSE /\ pc' = "done" /\ out' = BestOut(st)
-             ELSE /\ pc' = "done" /\ out' = ListFinish(st)
-          /\ UNCHANGED <<dir, pre, mig, store, lst, lst0, pos, st>>
+                  \* (the readdir order is forgotten: every order that gives up continues alike)
+                  THEN /\ pc' = "fallback" /\ lst' = <<>> /\ pos' = 1 /\ st' = ListInit /\ UNCHANGED out
+                  ELSE /\ pc' = "done" /\ out' = BestOut(st) /\ UNCHANGED <<lst, pos, st>>
+             ELSE /\ pc' = "done" /\ out' = ListFinish(st) /\ UNCHANGED <<lst, pos, st>>
+          /\ UNCHANGED <<dir, pre, mig, store>>
 
 \* the local fast path gave up: list the directory through the object store (any order)
 Fallback(l) == /\ pc = "fallback"
                /\ l \in Perms(dir)
                /\ store' = "localfb" /\ lst' = l /\ pos' = 1 /\ st' = ListInit /\ pc' = "scan"
-               /\ UNCHANGED <<dir, pre, mig, lst0, out>>
+               /\ UNCHANGED <<dir, pre, mig, out>>
 
 OpenAny == \E s \in Stores : \E l \in (IF s = "lex" THEN {LexSort(dir)} ELSE Perms(dir)) : Open(s, l)
 FallbackAny == \E l \in Perms(dir) : Fallback(l)
